@@ -626,8 +626,8 @@ theorem not_enum_of_scalarEq {a b : Ty} (h : scalarEq a b = true) (hb : ∀ n, b
 
 /-- a simple `CExpr` of the typing half compiled by `compile_cexpr` has the Go type of its annotation -/
 theorem typed_cexpr {env : Env} {file : AFile} {G : List String} {c : TCtx} {D : Names} {s : Scp} {Γ : Ctx} {K : KCtx} {e : CExpr}
-    (hctl : isCtl e = false) (hfrag : fragC env file G Γ K e = true) (hstd : stdC env file K e = true) (hsc : TScp env s Γ K)
-    (hctx : SCtx file G D (skeys s) Γ (calleesC (Γ.map (·.1)) e)) (hl : TLink env file G c) :
+    (hctl : isCtl e = false) (hgoc : isGoC e = false) (hfrag : fragC env file G Γ K e = true) (hstd : stdC env file K e = true)
+    (hsc : TScp env s Γ K) (hctx : SCtx file G D (skeys s) Γ (calleesC (Γ.map (·.1)) e)) (hl : TLink env file G c) :
     TyIs env c s (compileCExpr env e) e.annTy ∧ stdTy e.annTy = true := by
   cases e with
   | imm i =>
@@ -904,7 +904,45 @@ theorem typed_cexpr {env : Env} {file : AFile} {G : List String} {c : TCtx} {D :
   | matchE _ _ _ _ => simp [isCtl] at hctl
   | toDyn _ _ _ _ => simp [stdC] at hstd
   | dynCall _ _ _ _ _ => simp [stdC] at hstd
-  | go _ _ => simp [stdC] at hstd
+  | go _ _ => simp [isGoC] at hgoc
+
+/-- `go f(env)`: the `apply` function of the closure environment at its signature -/
+theorem typed_go {env : Env} {file : AFile} {G : List String} {c : TCtx} {D : Names} {ret : Option GTy} {s : Scp} {Γ : Ctx} {K : KCtx}
+    {e : Imm} {ty : Ty} (hfrag : fragC env file G Γ K (.go e ty) = true) (hs : stdImm e = true) (hsc : TScp env s Γ K)
+    (hctx : SCtx file G D (skeys s) Γ (calleesC (Γ.map (·.1)) (.go e ty))) (hl : TLink env file G c) :
+    stmtOKT c ret s (compileGo env e) = .ok s ∧ ty = .unit := by
+  obtain ⟨sn, fty, rty, hety, he, hty, hshape⟩ := compileGo_shape hfrag
+  refine ⟨?_, hty⟩
+  simp only [fragC, goOK, hety, Bool.and_eq_true] at hfrag
+  obtain ⟨_, hcase⟩ := hfrag
+  cases hfc : findClosureApplyFn env (.struct sn) with
+  | none => rw [hfc] at hcase; cases hcase
+  | some tr =>
+    obtain ⟨name, fty', rty'⟩ := tr
+    rw [hfc] at hcase; simp only [Bool.and_eq_true, Bool.not_eq_true', beq_iff_eq] at hcase
+    obtain ⟨⟨⟨⟨⟨⟨hname, hloc⟩, hrn⟩, hsp⟩, hext⟩, hentry⟩, hfile⟩ := hcase
+    cases hfind : file.find? (·.name == name) with
+    | none => rw [hfind] at hfile; cases hfile
+    | some g =>
+      rw [hfind] at hfile; simp only [Bool.and_eq_true] at hfile
+      obtain ⟨hG, hps⟩ := hfile
+      have hgmem : g ∈ file := List.mem_of_find?_eq_some hfind
+      have hgname : g.name = name := by have := List.find?_some hfind; simpa using this
+      have hfn := hl.fn g hgmem (by rw [hgname]; simpa using hG) (by rw [hgname]; simpa using hentry) (by rw [hgname]; exact hrn)
+      rw [hgname, hname] at hfn
+      have hps' := scalarEqs_eq hps
+      have hlook : lookupS s (vn (applyFnName sn)) = none :=
+        lookupS_none (fun hk => (hctx.cal _ (by simp [calleesC, hety])).1 (hctx.scD _ hk))
+      have h1 := typed_imm (c := c) he hs hsc hctx hl (by rw [hety]; intro n h; cases h)
+      have hts : tysOfT c s (compileImms env [e]) = .ok [goTy (.struct sn)] := by
+        simp [compileImms, tysOfT, h1, hety]
+      have hpm : g.params.map (fun p => goTy p.2) = [goTy (.struct sn)] := by
+        have : g.params.map (fun p => goTy p.2) = (g.params.map (·.2)).map goTy := by simp [List.map_map, Function.comp_def]
+        rw [this, hps']; rfl
+      rw [hpm] at hfn
+      have hcall := tyOf_call_fn (t0 := goTy rty) (fty := goTy fty) hlook hfn hts (argsAssignable_norm c _)
+      rw [hshape]
+      simp only [stmtOKT, isCallE, if_true, hcall, R.bind]
 
 /-! ### statement sequences -/
 
@@ -992,7 +1030,7 @@ theorem isNilLit_simple {env : Env} {file0 : AFile} {K0 : KCtx} {e : CExpr} (hst
   | matchE _ _ _ _ => simp [isCtl] at hctl
   | toDyn _ _ _ _ => simp [stdC] at hstd
   | dynCall _ _ _ _ _ => simp [stdC] at hstd
-  | go _ _ => simp [stdC] at hstd
+  | go _ _ => simp [compileCExpr, isNilLit]
 
 /-! ### the scope along a statement list -/
 
@@ -1134,10 +1172,24 @@ theorem typedC_simple {env : Env} {file : AFile} {G : List String} {c : TCtx} {D
     (m : Mode) (e : CExpr) (Γ : Ctx) (K : KCtx) (s : Scp) (hctl : isCtl e = false)
     (hfrag : fragC env file G Γ K e = true) (hstd : stdC env file K e = true) (hsc : TScp env s Γ K) (hctx : SCtx file G D (skeys s) Γ (calleesC (Γ.map (·.1)) e))
     (htgt : TgtSc m Γ (skeys s)) (htt : TgtTy m s e.annTy) : seqOK c ret s (compileSimple env m e) s := by
-  obtain ⟨hty, hstdt⟩ := typed_cexpr (c := c) hctl hfrag hstd hsc hctx hl
+  by_cases hgo : isGoC e = false
+  rotate_left
+  · -- `go f(env)` and, in assign mode, `t = struct{}{}`
+    cases e <;> simp [isGoC] at hgo
+    rename_i a ty
+    simp only [stdC] at hstd
+    obtain ⟨hg, hty⟩ := typed_go (ret := ret) hfrag hstd hsc hctx hl
+    subst hty
+    cases m with
+    | effect => exact ⟨s, by simpa only [compileSimple] using hg, rfl⟩
+    | assign t =>
+      have hne : gid t ≠ "_" := fun e' => hctx.nob (e' ▸ htgt.1)
+      have hasg : stmtOKT c ret s (.assign (gid t) unitE) = .ok s :=
+        stmt_assign_ok hl ret s (gid t) (t := .unit) rfl (TyIs.exact (by simp [unitE, tyOfT, goTy])) hne htt
+      exact ⟨s, by simpa only [compileSimple] using hg, s, hasg, rfl⟩
+  obtain ⟨hty, hstdt⟩ := typed_cexpr (c := c) hctl hgo hfrag hstd hsc hctx hl
   cases m with
   | assign t =>
-    have hgo : isGoC e = false := by cases e <;> first | rfl | simp [stdC] at hstd
     have hshape : compileSimple env (.assign t) e = [.assign (gid t) (compileCExpr env e)] := by
       cases e <;> simp [isCtl] at hctl <;> (try (simp [isGoC] at hgo; done)) <;> simp only [compileSimple]
       rename_i f args ty
@@ -1149,7 +1201,8 @@ theorem typedC_simple {env : Env} {file : AFile} {G : List String} {c : TCtx} {D
   | effect =>
     have hcallE := (isNilLit_simple hstd hctl hfrag).2
     obtain ⟨te, hty, -⟩ := hty
-    cases e <;> simp [isCtl] at hctl <;> (try (simp [stdC] at hstd; done)) <;> simp only [compileSimple, seqOK] <;>
+    cases e <;> simp [isCtl] at hctl <;> (try (simp [isGoC] at hgo; done)) <;> (try (simp [stdC] at hstd; done)) <;>
+      simp only [compileSimple, seqOK] <;>
       first
         | rfl
         | (refine ⟨s, ?_, rfl⟩
@@ -1240,10 +1293,53 @@ theorem typedA {env : Env} {file : AFile} {G : List String} {c : TCtx} {D : Name
         · exact List.mem_append_left _ (by simp only [topDecls]; exact List.mem_cons_of_mem _ (hk1 y hy))
         · subst hy; exact List.mem_append_left _ (by simp only [topDecls]; exact List.mem_cons_self)
     · have hctl' : isCtl v = false := by simpa using hctl
-      simp only [letPrefix, letBodySt, hctl', Bool.false_eq_true, if_false, bindSimple_shape x hfv (by cases v <;> first | rfl | simp [stdC] at hsv)] at hdP hdR ⊢
+      by_cases hgoc : isGoC v = false
+      rotate_left
+      · -- `go f(env); var x struct{} = struct{}{}`
+        cases v <;> simp [isGoC] at hgoc
+        rename_i a ty'
+        simp only [stdC] at hsv
+        obtain ⟨hg, hty'⟩ := typed_go (ret := ret) hfv hsv hsc hctxv hl
+        subst hty'
+        obtain ⟨X, hX⟩ := compileGo_isGo env a
+        simp only [letPrefix, letBodySt, isCtl, Bool.false_eq_true, if_false, compileBindSimple, CExpr.annTy] at hdP hdR hfb hsvt ⊢
+        have hds : Goml.Dce.declScope (compileGo env a) (skeys s) = skeys s := by rw [hX]; rfl
+        have hsa : scopeAfter [compileGo env a, GStmt.varDecl (vn x) GTy.unit (some unitE)] (skeys s) = vn x :: skeys s := by
+          simp only [scopeAfter, hds]; rfl
+        rw [hsa] at hdR
+        have hdP' : DeclOK D (skeys s) [GStmt.varDecl (vn x) GTy.unit (some unitE)] := by
+          have := hdP; simp only [DeclOK, sokB, hds, Bool.and_eq_true] at this ⊢; exact ⟨this.2.1, trivial⟩
+        obtain ⟨hxin, -⟩ := hdP'.varDecl
+        have h1 : stmtOKT c ret s (.varDecl (vn x) .unit (some unitE)) = .ok ((vn x, .unit) :: s) :=
+          stmt_varDecl_some_ok hl ret s (vn x) (t := .unit) rfl (TyIs.exact (by simp [unitE, tyOfT, goTy])) rfl
+        have hfreshx : ∀ y ty, lookupTy Γ y = some ty → vn y ≠ vn x := fun y ty hy e => hxin.1 (e ▸ hctxv.vars y ty hy)
+        have hnew1 : ∀ y, y ∈ [vn x] → y ∈ D ∧ y ≠ "_" := fun y hy => by
+          simp only [List.mem_singleton] at hy; subst hy; exact hxin.2
+        have hfresh1 : ∀ y, y ∈ skeys [(vn x, GTy.unit)] → ¬ y ∈ skeys s := fun y hy => by
+          simp only [skeys, List.map_cons, List.map_nil, List.mem_singleton] at hy; subst hy; exact hxin.1
+        let s2 : Scp := (vn x, GTy.unit) :: s
+        have hsc2 : TScp env s2 ((x, .unit) :: Γ) (eraseK K x) :=
+          (TScp.extend (Dl := [(vn x, GTy.unit)]) hsc hctxv hfresh1).letvar (t := .unit) (lookupS_cons_self _ _ _) hfreshx
+        have hctx2 : SCtx file G D (skeys s2) ((x, .unit) :: Γ) (calleesA (x :: Γ.map (·.1)) body) :=
+          (hctxb.extend hnew1).letvar (by simp [s2, skeys]) _
+        have hxt : ∀ t', m = .assign t' → vn x ≠ gid t' := fun t' ht' e => by
+          subst ht'; exact hxin.1 (e ▸ htgt.1)
+        have htgt2 : TgtSc m ((x, .unit) :: Γ) (skeys s2) := (htgt.extend [vn x]).letvar _ hxt
+        have htt2 : TgtTy m s2 (aTy body) := TgtTy.extend (Dl := [(vn x, GTy.unit)]) htt htgt hfresh1
+        obtain ⟨Dl2, hseq2, hk2⟩ := typedA (ret := ret) hl body m _ _ _ s2 hfb hsb hsc2 hctx2 hdR htgt2 htt2
+        refine ⟨Dl2 ++ [(vn x, GTy.unit)], ?_, fun y hy => ?_⟩
+        · have hall : seqOK c ret s [compileGo env a, GStmt.varDecl (vn x) GTy.unit (some unitE)] s2 := ⟨_, hg, _, h1, rfl⟩
+          have := seqOK_append hall hseq2
+          simpa [s2, List.append_assoc] using this
+        · rw [topDecls_append]
+          simp only [skeys, List.map_append, List.mem_append, List.map_cons, List.map_nil, List.mem_singleton] at hy
+          rcases hy with hy | hy
+          · exact List.mem_append_right _ (hk2 y hy)
+          · subst hy; exact List.mem_append_left _ (by rw [hX]; simp [topDecls])
+      simp only [letPrefix, letBodySt, hctl', Bool.false_eq_true, if_false, bindSimple_shape x hfv hgoc] at hdP hdR ⊢
       obtain ⟨hxin, -⟩ := hdP.varDecl
       rw [scopeAfter_varDecl] at hdR
-      obtain ⟨hty, _⟩ := typed_cexpr (c := c) hctl' hfv hsv hsc hctxv hl
+      obtain ⟨hty, _⟩ := typed_cexpr (c := c) hctl' hgoc hfv hsv hsc hctxv hl
       have h1 := stmt_varDecl_some_ok hl ret s (vn x) hsvt hty (isNilLit_simple hsv hctl' hfv).1
       have hfreshx : ∀ y ty, lookupTy Γ y = some ty → vn y ≠ vn x := fun y ty hy e => hxin.1 (e ▸ hctxv.vars y ty hy)
       have hnew1 : ∀ y, y ∈ [vn x] → y ∈ D ∧ y ≠ "_" := fun y hy => by
@@ -1547,7 +1643,9 @@ theorem typedC {env : Env} {file : AFile} {G : List String} {c : TCtx} {D : Name
     exact ⟨[], typedC_simple hl m _ Γ K s rfl hfrag hstd hsc hctx htgt htt, fun y hy => by simp [skeys] at hy⟩
   | .toDyn _ _ _ _, m, st, Γ, K, s, _, hstd, _, _, _, _, _ => by simp [stdC] at hstd
   | .dynCall _ _ _ _ _, m, st, Γ, K, s, _, hstd, _, _, _, _, _ => by simp [stdC] at hstd
-  | .go _ _, m, st, Γ, K, s, _, hstd, _, _, _, _, _ => by simp [stdC] at hstd
+  | .go a ty, m, st, Γ, K, s, hfrag, hstd, hsc, hctx, hdecl, htgt, htt => by
+    rw [compileTail_simple env m st (by rfl)]
+    exact ⟨[], typedC_simple hl m _ Γ K s rfl hfrag hstd hsc hctx htgt htt, fun y hy => by simp [skeys] at hy⟩
   | .proj a idx ty, m, st, Γ, K, s, hfrag, hstd, hsc, hctx, hdecl, htgt, htt => by
     rw [compileTail_simple env m st (by rfl)]
     exact ⟨[], typedC_simple hl m _ Γ K s rfl hfrag hstd hsc hctx htgt htt, fun y hy => by simp [skeys] at hy⟩
